@@ -195,18 +195,25 @@ def _single(n):
 
 
 def push_value(n):
-    """program text that leaves exactly n on top of stack 3: one push, a product of two pushes, or a decrement"""
+    """program text that leaves exactly n on top of stack 3: one push, a product of two pushes, a decrement, or (for
+    big values) Horner's scheme in base 65536"""
     t = _single(n)
     if t is not None:
         return t
-    x = int(n ** 0.5)
-    while x > 1:
-        if n % x == 0 and _single(x) and _single(n // x):
-            return '%s %s 하앗...' % (_single(x), _single(n // x))
-        x -= 1
-        if n // x > 3000 * 70000:
-            break
-    return push_value(n + 1) + ' 형. 흣.... 하앙...'
+    if n < (1 << 40):
+        x = int(n ** 0.5)
+        lo = max(2, x - 200000)
+        while x >= lo:
+            if n % x == 0 and _single(x) and _single(n // x):
+                return '%s %s 하앗...' % (_single(x), _single(n // x))
+            x -= 1
+    if n < (1 << 17):
+        return push_value(n + 1) + ' 형. 흣.... 하앙...'
+    q, r = divmod(n, 65536)
+    s = '%s %s 하앗...' % (push_value(q), big(256, 256))
+    if r:
+        s += ' %s 하앙...' % push_value(r)
+    return s
 
 
 def mixed_family():
@@ -231,7 +238,7 @@ def labelflow_family():
     """label flow: a conditional command X that registers one of two labels on its first visit, a later command T that
     registers the other, and a (conditional) jumper J that returns to X after the value X tests has changed, so that X
     then jumps FORWARD to T.  Candidates are generated from small part sets and kept when the reference run (a) ends
-    within 300 commands and performs at least one forward jump, or (b) is one of every 7th of the remaining ones
+    within 300 commands and performs at least one forward jump or one ♡ return, or (b) is one of every 7th of the remaining ones
     (loops, backward-only flows).  Exercises known-label jumps in both directions inside and outside the
     pre-executed prefix; terminating cases with fewer than 100 jumps stay entirely inside level-2 speculation."""
     if _LABELFLOW:
@@ -257,7 +264,8 @@ def labelflow_family():
     mids = ['', '형. 항.', '흣...', '형.. 항.']
     ts = ['흑...💕', '흑...♥', '항...💕']
     posts = ['', '형....', '형..', '흣...']
-    js = ['흑...♥', '흑...💕', '흑...💘?♥', '흑...♥?💘', '흑...💘?💕', '항...♥?💘', '형...💘!♥']
+    js = ['흑...♥', '흑...💕', '흑...💘?♥', '흑...♥?💘', '흑...💘?💕', '항...♥?💘', '형...💘!♥',
+          '항...♥?♡?', '항...♥!♡', '항...♡?♥', '흑...♥?♡', '항...💕?♡?']
     reads = ['', '흑 항... 흑... ']
     keep, rest = [], []
     for rd in reads:
@@ -269,7 +277,7 @@ def labelflow_family():
                             for j in js:
                                 text = ' '.join(w for w in (rd + pre, x, mid, t, post, j, '형. 항.') if w)
                                 end, m, steps = I.run(P.parse(text), 'ab\nc', max_steps=300, horizon=256)
-                                if end in ('end', 'exit0', 'exit1') and m.fwd_jumps > 0:
+                                if end in ('end', 'exit0', 'exit1') and (m.fwd_jumps > 0 or m.returns > 0):
                                     keep.append(text)
                                 else:
                                     rest.append(text)
@@ -282,6 +290,31 @@ def labelflow_family():
     except OSError:
         pass
     return _LABELFLOW
+
+
+def bigarith_family():
+    """programs whose values grow past 2^64 through repeated squaring with +1 / -1 steps (limbs with interior zeros,
+    long carries), printed as decimal text: the interpreter's arithmetic on big values, end to end"""
+    out = []
+    seeds = [(1 << 32) - 1, 1 << 32, (1 << 32) + 1, 65535, 65537]
+    steps = {'s': '흑... 하앗...', 'p': '형. 하앙...', 'm': '형. 흣.... 하앙...'}
+    for v in seeds:
+        for pat in itertools.product('pm', repeat=3):
+            body = [push_value(v)]
+            for c in pat:
+                body.append(steps['s'])
+                body.append(steps[c])
+            body.append('흑... 하앗... 흣. 흣... 흣..')      # square once more, print it, and print it to stderr too
+            out.append(' '.join(body))
+    F = (1 << 32) - 1
+    lefts = [(1 << 64) - 1, (1 << 96) - 1, F * (1 << 64) + F * (1 << 32) + 1]
+    rights = [(1 << 64) + F, F * (1 << 64) + F, 3 * (1 << 64) + 5]          # limbs [F,0,1], [F,0,F], [5,0,3]
+    for a in lefts:
+        for b in rights:
+            out.append('%s %s 하앗... 흣.' % (push_value(a), push_value(b)))
+            out.append('%s %s 하앗... 흣.' % (push_value(b), push_value(a)))
+            out.append('%s 흡... %s 하앗... 흣.' % (push_value(a), push_value(b)))       # b / a as a fraction in lowest terms
+    return out
 
 
 def with_observers(texts, observers):
@@ -320,6 +353,8 @@ def run_c02(tier):
         tasks.append(('budget', c, ['ab\nc']))
     for c in chunks(mixed_family(), 60):
         tasks.append(('mixed', c, ['', 'ab\nc']))
+    for c in chunks(bigarith_family(), 5):
+        tasks.append(('bigarith', c, [''], 400))
     lf = labelflow_family()
     for c in chunks(lf, 300):
         tasks.append(('labelflow', c, ['ab\nc'], 400))
